@@ -203,3 +203,18 @@ def freq_predicate(prog, region):
                         if len(fb) == 1 and fb[0].argc == 1 and fb[0].locals[1] == 'u32' and fb[0].locals[0] == 'bool':
                             cands.add(f)
     return sorted(cands)
+
+
+def assoc_const_variant(prog, region, trait, name):
+    """variant name of an enum-typed `<region as trait>::NAME`"""
+    for im in prog.impls:
+        if im.get('trait') == trait and im['self_ty'] == region:
+            for it in im['items']:
+                if it['name'] == name:
+                    b = prog.bodies.get(it['path'])
+                    if b is None:
+                        return None
+                    an, fr, out, rv = run_fn(prog, b)
+                    if rv is not None and rv[0] == 'adt' and rv[2] is not None and len(rv[2]) == 1:
+                        return prog.adts[rv[1]]['variants'][next(iter(rv[2]))]['name']
+    return None
